@@ -64,7 +64,7 @@ const REQ_MSG: [u8; 6] = [1, 2, 3, 4, 5, 6];
 const RESP_MSG: [u8; 9] = [9, 9, 9, 9, 9, 9, 9, 9, 1];
 
 fn srv_body(c: &SrvCase, ch: &Chooser) -> Outcome {
-    let script = Script { initial_md: vec![], msgs: vec![RESP_MSG.to_vec()], end: None, handler_err: false, bidi: BidiMode::ReadAll, disable_compression: false };
+    let script = Script { initial_md: vec![], msgs: vec![RESP_MSG.to_vec()], end: None, handler_err: false, bidi: BidiMode::ReadAll, disable_compression: false, exact_hint: false };
     let (mut server, log) = new_server(script, ch, false);
     for e in &c.send {
         server = server.send_compressed(tonic_enc(*e));
@@ -308,7 +308,7 @@ struct WebCase {
 
 fn web_body(c: &WebCase, ch: &Chooser) -> Outcome {
     use tower_layer::Layer;
-    let script = Script { initial_md: vec![], msgs: vec![RESP_MSG.to_vec()], end: None, handler_err: false, bidi: BidiMode::ReadAll, disable_compression: false };
+    let script = Script { initial_md: vec![], msgs: vec![RESP_MSG.to_vec()], end: None, handler_err: false, bidi: BidiMode::ReadAll, disable_compression: false, exact_hint: false };
     let (mut server, log) = new_server(script, ch, false);
     for e in &c.send {
         server = server.send_compressed(tonic_enc(*e));
